@@ -150,6 +150,59 @@ def fam_modular(rng, nmax):
     return funcs, free
 
 
+def _tt_of(fn, k):
+    return [int(bool(fn(*[(idx >> j) & 1 for j in range(k)]))) for idx in range(1 << k)]
+
+
+def fam_cascade(rng, nmax):
+    """Cascade of small positive-feedback modules gated by upstream variables: deep
+    diagrams in which the same node is reached along paths of different length and
+    with transitive shortcut edges (a motif percolating into a sibling)."""
+    funcs = []
+    while len(funcs) < nmax:
+        n0 = len(funcs)
+        ups = list(range(n0))
+        up = rng.choice(ups) if ups else None
+        up2 = rng.choice(ups) if len(ups) > 1 else None
+        kind = rng.choice(["switch", "latch", "latch", "gated_switch", "relay", "and_latch"])
+        room = nmax - n0
+        if kind in ("switch", "gated_switch") and room < 2:
+            kind = "latch"
+        if up is None and kind in ("relay",):
+            kind = "switch" if room >= 2 else "latch"
+        neg = rng.random() < 0.25
+        if kind == "switch":
+            a, b = n0, n0 + 1
+            funcs.append([[b], [0, 1]])
+            funcs.append([[a], [0, 1]])
+        elif kind == "gated_switch":
+            a, b = n0, n0 + 1
+            if up is None:
+                funcs.append([[b], [0, 1]])
+            elif rng.random() < 0.5:
+                funcs.append([[b, up], _tt_of(lambda y, u: y and (u != neg), 2)])
+            else:
+                funcs.append([[b, up], _tt_of(lambda y, u: y or (u != neg), 2)])
+            funcs.append([[a], [0, 1]])
+        elif kind == "latch":
+            x = n0
+            if up is None:
+                funcs.append([[x], [0, 1]])
+            elif rng.random() < 0.5:
+                funcs.append([[x, up], _tt_of(lambda v, u: v or (u != neg), 2)])
+            else:
+                funcs.append([[x, up], _tt_of(lambda v, u: v and (u != neg), 2)])
+        elif kind == "and_latch":
+            x = n0
+            if up is None or up2 is None or up2 == up:
+                funcs.append([[x], [0, 1]])
+            else:
+                funcs.append([[x, up, up2], _tt_of(lambda v, u, w: (v or u) and w, 3)])
+        else:  # relay
+            funcs.append([[up], [1, 0] if neg else [0, 1]])
+    return funcs[:nmax], []
+
+
 _corpus_cache = None
 
 
@@ -203,13 +256,32 @@ def fam_maa(rng, nmax):
     return funcs, free
 
 
-FAMILIES = ["sparse", "dense", "canal", "modular", "maa"]
+def fam_maa_cascade(rng, nmax):
+    """A mined motif-avoidant core next to an independent cascade of positive-feedback
+    modules: every trap space of the cascade part contains a copy of the motif-avoidant
+    attractor, so partially expanded / skipped diagrams have attractors outside the
+    minimal trap spaces at every level."""
+    corpus = load_corpus()
+    small = [c for c in corpus if len(c) <= max(3, nmax - 2)]
+    if not small:
+        return fam_cascade(rng, nmax)
+    core = rng.choice(small)
+    funcs = [[list(r), list(t)] for r, t in core]
+    room = nmax - len(funcs)
+    if room > 0:
+        f, _ = fam_cascade(rng, rng.randint(min(2, room), room))
+        f, _ = _shift(f, [], len(funcs))
+        funcs += f
+    return funcs, []
+
+
+FAMILIES = ["sparse", "dense", "canal", "modular", "maa", "cascade", "maa_cascade"]
 
 
 def gen_network(rng, weights=None, nmin=2, nmax=6, fmts=("bnet", "aeon"), names=None, shuffle_order=False):
     """Draw a family and an instance.  `weights` maps family -> weight."""
     if weights is None:
-        weights = {"sparse": 4, "dense": 1, "canal": 2, "modular": 2, "maa": 1}
+        weights = {"sparse": 4, "dense": 1, "canal": 2, "modular": 2, "maa": 1, "cascade": 2}
     fams = [f for f in FAMILIES if weights.get(f, 0) > 0]
     fam = rng.choices(fams, [weights[f] for f in fams])[0]
     if fam == "sparse":
@@ -223,6 +295,10 @@ def gen_network(rng, weights=None, nmin=2, nmax=6, fmts=("bnet", "aeon"), names=
         funcs, free = fam_canal(rng, n)
     elif fam == "modular":
         funcs, free = fam_modular(rng, nmax)
+    elif fam == "maa_cascade":
+        funcs, free = fam_maa_cascade(rng, nmax)
+    elif fam == "cascade":
+        funcs, free = fam_cascade(rng, rng.randint(max(nmin, 3), nmax))
     else:
         funcs, free = fam_maa(rng, nmax)
     n = len(funcs)
